@@ -140,6 +140,11 @@ func (e *constEnv) eval(x ast.Expr, iota int64) (constant.Value, bool) {
 			if v, ok := externalConsts[id.Name+"."+x.Sel.Name]; ok {
 				return constant.MakeInt64(v), true
 			}
+			// constant of another package of the repository
+			if d := e.f.importDir(e.dir, id.Name); d != "" {
+				sub := &constEnv{f: e.f, dir: d, memo: map[string]constant.Value{}}
+				return sub.lookup(x.Sel.Name)
+			}
 		}
 		return nil, false
 	case *ast.CallExpr: // conversions like Type(3), int64(x), time.Duration(x)
@@ -175,6 +180,28 @@ func (e *constEnv) eval(x ast.Expr, iota int64) (constant.Value, bool) {
 		return constant.BinaryOp(a, x.Op, b), true
 	}
 	return nil, false
+}
+
+// importDir maps an import name used in package `dir` to a directory of the repository
+// ("" when the import is not a package of github.com/gotd/td).
+func (f *Facts) importDir(dir, name string) string {
+	const mod = "github.com/gotd/td/"
+	for _, af := range f.sortedFiles(dir) {
+		for _, im := range af.Imports {
+			path := strings.Trim(im.Path.Value, "\"")
+			if !strings.HasPrefix(path, mod) {
+				continue
+			}
+			local := path[strings.LastIndex(path, "/")+1:]
+			if im.Name != nil {
+				local = im.Name.Name
+			}
+			if local == name {
+				return strings.TrimPrefix(path, mod)
+			}
+		}
+	}
+	return ""
 }
 
 // ConstInt evaluates the package-level constant `name` of package directory `dir`.
@@ -278,6 +305,7 @@ func (f *Facts) Write(path string) error {
 	var b strings.Builder
 	fmt.Fprintf(&b, "/- GENERATED by harness/%s facts from the repository's current source. Do not edit. -/\n", strings.ToLower(f.Prop))
 	fmt.Fprintf(&b, "namespace TdModel.Facts.%s\n\n", f.Prop)
+	fmt.Fprintf(&b, "/-- Iteration bound of translated loops (`hc.TranslateFuncs`). -/\ndef LoopFuel : Nat := 128\n\n")
 	for _, l := range f.lines {
 		b.WriteString(l)
 		b.WriteString("\n")
